@@ -23,6 +23,8 @@ func init() { streams["zones"] = streamZones }
 var quickZones = []string{"UTC", "America/Santiago", "America/Havana", "Atlantic/Azores", "America/Sao_Paulo", "Pacific/Apia",
 	"Australia/Lord_Howe", "Africa/Cairo", "Asia/Beirut", "Asia/Amman", "America/Asuncion", "America/Godthab", "Europe/Dublin",
 	"Asia/Kathmandu", "Europe/Berlin", "America/New_York", "Etc/GMT-14", "Etc/GMT+12", "Asia/Tehran", "America/St_Johns",
+	// zones west of Greenwich whose STANDARD time (not DST) jumped forward across local midnight
+	"Pacific/Pitcairn", "Pacific/Kiritimati", "America/Mexico_City", "Pacific/Kanton",
 	// zones west of Greenwich in which a clock change of MORE than one hour (or of 90 minutes) removed local midnight
 	"America/Argentina/Cordoba", "America/Danmarkshavn", "America/Montevideo", "America/Scoresbysund", "America/Whitehorse"}
 
